@@ -76,11 +76,8 @@ theorem callFn_cacheOf (b : Beh) (id : Nat) (memo : Bool) (args : List Val) (st 
   · split
     · rename_i outs hl
       refine ⟨h, ?_⟩
-      have hm := List.mem_of_lookup_eq_some hl |> fun x => x
-      obtain ⟨k, hk⟩ := h ((id, args), outs) (by
-        have := List.lookup_eq_some_iff.mp hl
-        obtain ⟨l1, l2, hl', _⟩ := this
-        rw [hl']; simp)
+      obtain ⟨l1, l2, hl', _⟩ := List.lookup_eq_some_iff.mp hl
+      obtain ⟨k, hk⟩ := h ((id, args), outs) (by rw [hl']; simp)
       exact ⟨k, hk⟩
     · refine ⟨?_, _, rfl⟩
       intro x hx
@@ -89,5 +86,91 @@ theorem callFn_cacheOf (b : Beh) (id : Nat) (memo : Bool) (args : List Val) (st 
       · subst hx; exact ⟨_, rfl⟩
       · exact h x hx
   · exact ⟨push_cacheOf h _, _, rfl⟩
+
+end Nject
+
+namespace Nject
+
+theorem Fits.tail {b : Beh} {n : Node} {rest : List Node} (h : Fits b (n :: rest)) : Fits b rest :=
+  ⟨fun m hm => h.inj m (List.mem_cons_of_mem _ hm), fun m hm => h.fallible m (List.mem_cons_of_mem _ hm),
+   fun m hm => h.wrap m (List.mem_cons_of_mem _ hm)⟩
+
+theorem specTree_agree (b : Beh) (n : Node) (avail : List Ty) (next : Env → St → Env × St)
+    (hnext : ∀ d d' s, AgreeOn (n.outs ++ avail) d d' → CacheOf b s →
+      next d s = next d' s ∧ CacheOf b (next d s).2)
+    (down down' : Env) (hag : AgreeOn avail down down') :
+    ∀ (w : WStep), w.fits n.outs.length → ∀ (last : Env) (st : St), CacheOf b st →
+      specTree n next down w last st = specTree n next down' w last st
+      ∧ CacheOf b (specTree n next down w last st).2
+  | .ret outs, _, last, st, hc => by
+    simp only [specTree]
+    exact ⟨trivial, push_cacheOf hc _⟩
+  | .call args k, hf, last, st, hc => by
+    simp only [specTree]
+    obtain ⟨hlen, hk⟩ := hf
+    have hs := hnext (down.set n.outs args) (down'.set n.outs args) (st.push (.winner n.id args))
+      (agree_set n.outs args hag hlen) (push_cacheOf hc _)
+    rw [← hs.1]
+    exact specTree_agree b n avail next hnext down down' hag (k _) (hk _) _ _ (push_cacheOf hs.2 _)
+
+/-- **Supply.**  If every type a provider reads has been supplied (`supplyRun`), the run does not depend
+    on anything else in the downward environment. -/
+theorem C01_supplied_run_ignores_the_rest (b : Beh) (errTy : Ty) (fin : Node) :
+    ∀ (nodes : List Node) (avail : List Ty), supplyRun fin nodes avail = true → Fits b nodes →
+    ∀ (down down' : Env) (st : St), AgreeOn avail down down' → CacheOf b st →
+      specNodes b errTy fin nodes down st = specNodes b errTy fin nodes down' st
+      ∧ CacheOf b (specNodes b errTy fin nodes down st).2
+  | [], avail, hs, _, down, down', st, hag, hc => by
+    simp only [supplyRun] at hs
+    simp only [specNodes, specFinal]
+    rw [agree_rd hag fin.ins hs]
+    exact ⟨rfl, (callFn_cacheOf b _ _ _ st hc).1⟩
+  | n :: rest, avail, hs, hf, down, down', st, hag, hc => by
+    simp only [supplyRun, Bool.and_eq_true] at hs
+    have hargs := agree_rd hag n.ins hs.1
+    have ih := C01_supplied_run_ignores_the_rest b errTy fin rest (n.outs ++ avail) hs.2 hf.tail
+    cases hk : n.kind with
+    | wrapper =>
+      simp only [specNodes, hk]
+      rw [hargs]
+      exact specTree_agree b n avail _ (fun d d' s => ih d d' s) down down' hag _
+        (hf.wrap n List.mem_cons_self hk _ _) _ _ (push_cacheOf hc _)
+    | fallible =>
+      simp only [specNodes, hk]
+      rw [hargs]
+      obtain ⟨hc', k, hk'⟩ := callFn_cacheOf b n.id n.memo (n.ins.map down'.rd) st hc
+      split
+      · exact ⟨rfl, hc'⟩
+      · have hlen : n.outs.length ≤ ((callFn b n.id n.memo (n.ins.map down'.rd) st).1.eraseIdx n.errIdx).length := by
+          rw [hk']; exact hf.fallible n List.mem_cons_self hk _ _
+        exact ih _ _ _ (agree_set n.outs _ hag hlen) hc'
+    | inj =>
+      simp only [specNodes, hk]
+      rw [hargs]
+      obtain ⟨hc', k, hk'⟩ := callFn_cacheOf b n.id n.memo (n.ins.map down'.rd) st hc
+      have hlen : n.outs.length ≤ (callFn b n.id n.memo (n.ins.map down'.rd) st).1.length := by
+        rw [hk']; exact hf.inj n List.mem_cons_self (by rw [hk]; decide) (by rw [hk]; decide) _ _
+      exact ih _ _ _ (agree_set n.outs _ hag hlen) hc'
+    | final =>
+      simp only [specNodes, hk]
+      rw [hargs]
+      obtain ⟨hc', k, hk'⟩ := callFn_cacheOf b n.id n.memo (n.ins.map down'.rd) st hc
+      have hlen : n.outs.length ≤ (callFn b n.id n.memo (n.ins.map down'.rd) st).1.length := by
+        rw [hk']; exact hf.inj n List.mem_cons_self (by rw [hk]; decide) (by rw [hk]; decide) _ _
+      exact ih _ _ _ (agree_set n.outs _ hag hlen) hc'
+
+/-- In particular the zero values that unsupplied types read as never reach a provider: replacing the
+    whole unsupplied part of the environment by anything else changes nothing. -/
+theorem C01_never_a_zero_value (b : Beh) (errTy : Ty) (fin : Node) (nodes : List Node) (avail : List Ty)
+    (hs : supplyRun fin nodes avail = true) (hf : Fits b nodes) (down : Env) (junk : Env) (st : St) (hc : CacheOf b st) :
+    specNodes b errTy fin nodes down st
+      = specNodes b errTy fin nodes (fun t => if t ∈ avail then down t else junk t) st :=
+  (C01_supplied_run_ignores_the_rest b errTy fin nodes avail hs hf down _ st
+    (by intro t ht; simp [ht]) hc).1
+
+-- non-vacuity: [A: (T0)→T1, F: (T1,T0)] with T0 supplied
+example : supplyRun ⟨9, .final, [1, 0], [], [], [], [], 0, false, false⟩ [⟨1, .inj, [0], [1], [], [], [], 0, false, false⟩] [0] = true := by decide
+-- and an unsupplied read is rejected
+example : supplyRun ⟨9, .final, [1, 2], [], [], [], [], 0, false, false⟩ [⟨1, .inj, [0], [1], [], [], [], 0, false, false⟩] [0] = false := by decide
 
 end Nject
